@@ -118,6 +118,15 @@ Theorem C14_oracle_predicates : (forall l, nodupb l = true <-> NoDup l) /\
   (forall ds l before, members_firstb ds before l = true <-> cf ds before l).
 Proof. split; [exact nodupb_NoDup|exact members_firstb_cf]. Qed.
 
+(* 6c. CompletedIndex (the public restart position): after a run that no error stopped it is
+       the index of the last requested id (the code stores i, not i+1: "number finished" in its
+       doc comment is one more).  Correspondence: read after Close in every full run. *)
+Theorem C14_completed_index : forall ds fuel ids out,
+  order ds fuel ids = (SOk, out) ->
+  completed_index ds fuel ids = Z.max 0 (Z.of_nat (length ids) - 1).
+Proof. exact completed_index_ok. Qed.
+Print Assumptions C14_completed_index.
+
 (* 7. Close or context cancellation at any point.  The transition system of Model.v runs the
       producer's PROGRAM -- the finite sequence of datasource lookups and sends the walk performs,
       [program ds fuel ids]; its sends are exactly the ids of theorems 1-6 (7a) -- against a
